@@ -8,6 +8,7 @@
 //!     Z                                   set_global_default(another client)  -- must be ignored once a client is set
 //!     I|<kind>|<arg>|<key>|<tags>         a macro invocation on the main thread
 //!     T|<kind>|<arg>|<key>|<tags>         the same on a fresh thread
+//!     N|<kind>|<arg>|<key>|<tags>         the same, its value expression invoking statsd_gauge!("nested.inner", 7u64, "in" => "x") first
 //!     U|<kind>|<arg>|<key>|<tags>         the same inside a destructor that runs while a fresh thread unwinds from a panic
 //!   kind = c ms g m h d s (statsd_count! .. statsd_set!); arg as in bin `wire` (one of the 22 value types);
 //!   tags = comma list <hexkey>:<hexvalue> ("-" = none; 0..5 pairs)
@@ -64,8 +65,14 @@ macro_rules! from_arg {
 from_arg!(i64 => I64, i32 => I32, u64 => U64, u32 => U32, f64 => F64, Duration => Dur,
           Vec<u64> => VU64, Vec<f64> => VF64, Vec<Duration> => VDur);
 
+thread_local! { static NESTED: std::cell::Cell<bool> = std::cell::Cell::new(false); }
+
 fn ev_val<T: FromArg>() -> T {
     note("v".to_string());
+    // step N: the value expression of this invocation itself invokes a macro (a helper that measures and reports)
+    if NESTED.with(|n| n.replace(false)) {
+        cadence_macros::statsd_gauge!("nested.inner", 7u64, "in" => "x");
+    }
     CTX.with(|c| T::from_arg(&c.borrow().as_ref().unwrap().arg))
 }
 
@@ -216,11 +223,16 @@ pub fn child(line: &str) -> String {
                 let other = build_client("7a7a", "-", "~", "-");
                 cadence_macros::set_global_default(other.client);
             }
-            "I" | "T" | "U" => {
+            "I" | "T" | "U" | "N" => {
                 let before_log = log.lock().unwrap().len();
                 let before_h = handled.lock().unwrap().len();
                 let (ret, ev) = if f[0] == "I" {
                     one(f[1], f[2], f[3], f[4])
+                } else if f[0] == "N" {
+                    NESTED.with(|n| n.set(true));
+                    let r = one(f[1], f[2], f[3], f[4]);
+                    NESTED.with(|n| n.set(false));
+                    r
                 } else if f[0] == "U" {
                     // the invocation sits in a destructor that runs while its thread unwinds from a panic (a scope guard
                     // counting or timing a request): generated only for processes in which a client is set
